@@ -45,7 +45,10 @@ def main():
     d = os.path.abspath(sys.argv[1])
     args = sys.argv[2:]
     tier = args[args.index("--tier") + 1] if "--tier" in args else "quick"
-    checks = ["C%02d" % i for i in range(1, 21)]
+    # all twenty; the ones that look at representation, processes, threads and text first (an
+    # interrupted evaluation has then judged what a behaviour-preserving change is most likely to upset)
+    checks = ["C19", "C18", "C17", "C16", "C20", "C08", "C04", "C07", "C13", "C12", "C05", "C06", "C10", "C11",
+              "C15", "C09", "C14", "C01", "C02", "C03"]
     if "--checks" in args:
         checks = args[args.index("--checks") + 1].split(",")
     if "--auto" in args:
@@ -82,6 +85,13 @@ def main():
                 res["checks"][c]["first"] = what[0][:600] if what else out[-600:]
                 with open(os.path.join(d, "alarm_%s.log" % c), "w") as f:
                     f.write(out[-20000:])
+            # partial results survive an interrupted evaluation
+            res["alarms"] = sorted(k for k, v in res["checks"].items() if v["rc"] == 1)
+            res["harness_errors"] = sorted(k for k, v in res["checks"].items() if v["rc"] not in (0, 1))
+            res["silent"] = not res["alarms"] and not res["harness_errors"]
+            res["complete"] = len(res["checks"]) == len(checks)
+            with open(os.path.join(d, "result.json"), "w") as f:
+                json.dump(res, f, indent=1, sort_keys=True)
         res["alarms"] = sorted(c for c, v in res["checks"].items() if v["rc"] == 1)
         res["harness_errors"] = sorted(c for c, v in res["checks"].items() if v["rc"] not in (0, 1))
         res["silent"] = not res["alarms"] and not res["harness_errors"]
